@@ -21,7 +21,7 @@ pub fn def() -> PropDef {
 }
 
 fn streams(t: Tier) -> Vec<StreamDef> {
-    vec![st("avp", t.n(80_000, 4_000_000, 200, 20_000), false), st("control", t.n(20_000, 600_000, 40, 5_000), false), st("data", t.n(40_000, 2_000_000, 60, 10_000), false)]
+    vec![st("avp", t.n(80_000, 4_000_000, 200, 20_000), false), st("control", t.n(20_000, 600_000, 40, 5_000), false), st("data", t.n(40_000, 2_000_000, 60, 10_000), false), st("exact_sizes", t.n(281 * 40 * 4, 281 * 40 * 8, 40, 281 * 40), false)]
 }
 
 fn floors(t: Tier) -> Vec<(String, u64)> {
@@ -95,9 +95,32 @@ fn run(ctx: &mut Ctx) {
             }
             ctx.rep.sample(|| J::obj(vec![("avp", J::s(desc.clone())), ("reference_hex", J::hex(&want[..want.len().min(64)]))]));
         }
-        "control" => {
+        "control" | "exact_sizes" => {
             let (max_avps, maxp) = if ctx.rng.chance(1, 20) { (70, 1017) } else { (10, 80) };
-            let mut c = val::control(&mut ctx.rng, max_avps, maxp);
+            let mut c = if ctx.stream == "exact_sizes" {
+                // a message of exactly T octets (T = 20..=300) ending in an AVP of each kind: fixed
+                // inline buffers, word-wise copies and "small message" fast paths end at some T
+                let t = 20 + (ctx.idx % 281) as usize;
+                let k = ((ctx.idx / 281) % val::KINDS as u64) as usize;
+                let last = val::avp_kind(&mut ctx.rng, k, 24);
+                let used = 12 + 8 + 6 + senc::payload(&last).len();
+                let mut avps = vec![val::avp_of(&mut ctx.rng, 0, 8)];
+                if t < used {
+                    return;
+                }
+                let need = t - used;
+                if need != 0 {
+                    if need < 7 || need > 1023 {
+                        return;
+                    }
+                    avps.push(SAvp { attr: 7, hidden: false, body: SBody::Bytes(ctx.rng.bytes(need - 6)) });
+                }
+                avps.push(last);
+                ctx.rep.bucket("exact_sizes.cases");
+                SControl { length: t as u16, tunnel: ctx.rng.u16b(), session: ctx.rng.u16b(), ns: ctx.rng.u16b(), nr: ctx.rng.u16b(), avps }
+            } else {
+                val::control(&mut ctx.rng, max_avps, maxp)
+            };
             // the length member of the value is an input the encoder must ignore
             if ctx.rng.bool() {
                 c.length = ctx.rng.u16b();
